@@ -85,6 +85,8 @@ class GeckoWatercareProtocolHandler(GeckoPacketProtocolHandler):
             or received_bytes.startswith(WCGET_VERB)
             or received_bytes.startswith(REQWC_VERB)
             or received_bytes.startswith(WCSET_VERB)
+            or received_bytes.startswith(SETWC_VERB)
+            or received_bytes.startswith(WCREQ_VERB)
         )
 
     def handle(self, received_bytes: bytes, sender: tuple) -> None:
@@ -96,6 +98,10 @@ class GeckoWatercareProtocolHandler(GeckoPacketProtocolHandler):
         if received_bytes.startswith(REQWC_VERB):
             self._sequence = struct.unpack(">B", remainder)[0]
             self.schedule = True
+            return  # Stay in the handler list
+        if received_bytes.startswith(SETWC_VERB):
+            self._sequence, self.mode = struct.unpack(SET_WATERCARE_FORMAT, remainder)
+            self.schedule = False
             return  # Stay in the handler list
         if received_bytes.startswith(WCGET_VERB):
             self.mode = struct.unpack(GET_WATERCARE_FORMAT, remainder)[0]
